@@ -537,6 +537,129 @@ Section Sound.
       replace (demand ByCoin sc (f0 + fees)) with (demand ByCoin sc f0 + fees) by (unfold demand; cbn [coin_only]; lia).
       cbn [coin_only] in Iout. lia.
   Qed.
+
+  (* ----------------------------------------------------------------------------------------- *)
+  (* LargestFirstMultiAsset reports insufficiency only when all offered UTxOs together do not suffice in some
+     quantity of the target (an asset, or the lovelace including the fee of all of them) *)
+
+  Lemma sumQ_zero_rest s eff rest :
+    (forall i, In i rest -> has_key s eff i = false) -> sumQ s (map u_val (added_utxos eff rest)) = 0.
+  Proof.
+    induction rest as [|i rest IH]; intros H; [reflexivity|].
+    change (i :: rest) with ([i] ++ rest). unfold added_utxos in *. rewrite flat_map_app, map_app, sumQ_app.
+    rewrite IH by (intros j Hj; apply H; right; exact Hj). cbn [flat_map app].
+    pose proof (H i (or_introl eq_refl)) as Hk. unfold has_key in Hk.
+    destruct (nth_error eff i) as [u|]; [|reflexivity].
+    destruct (by_val s (u_val u)) eqn:E; [discriminate Hk|].
+    unfold sumQ. cbn [app map fold_right]. rewrite (by_val_none_Q _ _ E). lia.
+  Qed.
+
+  Lemma sumQ_all_selected s eff tr :
+    NoDup tr -> (forall i, In i tr -> (i < length eff)%nat) ->
+    (forall i, (i < length eff)%nat -> has_key s eff i = true -> In i tr) ->
+    sumQ s (map u_val (added_utxos eff tr)) = sumQ s (map u_val eff).
+  Proof.
+    intros Hn Hr Hc.
+    set (rest := filter (fun i => negb (existsb (Nat.eqb i) tr)) (seq 0 (length eff))).
+    assert (Hin_tr : forall i, existsb (Nat.eqb i) tr = true <-> In i tr).
+    { intros i. rewrite existsb_exists. split.
+      - intros [j [Hj E]]. apply Nat.eqb_eq in E. subst. exact Hj.
+      - intros H. exists i. split; auto. apply Nat.eqb_refl. }
+    assert (P : Permutation (seq 0 (length eff)) (tr ++ rest)).
+    { apply NoDup_Permutation.
+      - apply seq_NoDup.
+      - apply NoDup_app_intro; auto.
+        + apply NoDup_filter. apply seq_NoDup.
+        + intros x Hx Hx2. apply filter_In in Hx2. destruct Hx2 as [_ Hx2].
+          apply Bool.negb_true_iff in Hx2. apply Hin_tr in Hx. congruence.
+      - intros x. split.
+        + intros Hx. apply in_or_app. destruct (existsb (Nat.eqb x) tr) eqn:E.
+          * left. apply Hin_tr. exact E.
+          * right. apply filter_In. split; auto. rewrite E. reflexivity.
+        + intros Hx. apply in_app_or in Hx. destruct Hx as [Hx|Hx].
+          * apply in_seq. specialize (Hr _ Hx). lia.
+          * apply filter_In in Hx. tauto. }
+    rewrite <- (added_seq eff) at 2.
+    rewrite (sumQ_perm s _ _ (Permutation_map u_val (added_perm eff _ _ P))).
+    unfold added_utxos at 2. rewrite flat_map_app, map_app, sumQ_app.
+    fold (added_utxos eff tr). fold (added_utxos eff rest).
+    rewrite (sumQ_zero_rest s eff rest); [lia|].
+    intros i Hi. apply filter_In in Hi. destruct Hi as [Hs Hi]. apply in_seq in Hs.
+    destruct (has_key s eff i) eqn:E; [|reflexivity].
+    apply Bool.negb_true_iff in Hi. assert (In i tr) by (apply Hc; [lia|exact E]). apply Hin_tr in H. congruence.
+  Qed.
+
+  Lemma asset_guard_complete st : value_wf (st_out st) ->
+    (forall p n, Q (ByAsset p n) (st_out st) <= Q (ByAsset p n) (st_in st)) -> asset_guard st = true.
+  Proof.
+    unfold asset_guard. intros W H. destruct (multiasset_of (st_out st)) as [m|] eqn:Em; [|reflexivity].
+    apply value_wf_iff in W. rewrite Em in W. destruct W as [_ Wm].
+    apply forallb_forall. intros [[p n] q] Hin.
+    specialize (H p n). cbn [Q] in H. unfold qty at 1 in H. rewrite Em in H. cbn [opt_ma_qty] in H.
+    rewrite (entries_in_qty m p n q Wm Hin) in H. apply N.leb_le. exact H.
+  Qed.
+
+  Theorem lfma_complete_top cs offered sc st0 st' :
+    scenario_wf offered sc -> pre_distinct sc ->
+    initial_state min_fee sc = (st0, Done tt) -> coin (st_in st0) < coin (st_out st0) ->
+    add_inputs_from min_fee ffi current LargestFirstMultiAsset cs offered sc = (st', Insufficient) ->
+    let eff := effective_offered current offered sc in
+    let before := imap_of_list (sc_pre sc) in
+    exists sel fee, required_fee min_fee ffi before (added_utxos eff (st_trace st')) = Ok fee /\
+                    supply sel sc (before ++ eff) < demand sel sc fee.
+  Proof.
+    intros Hwf Hd E0 Hlt H eff.
+    destruct (sound_setup _ _ _ Hwf Hd E0) as [it0 [ot0 [f0 [Hst0 [Hf [Woff [Qi0 [Qo0 I0]]]]]]]]. cbn zeta in *. fold eff in Woff, I0.
+    unfold add_inputs_from in H. fold eff in H. rewrite E0 in H. cbn [obind] in H.
+    unfold prestep in H. apply N.leb_gt in Hlt. rewrite Hlt in H. cbn [andb obind] in H.
+    unfold run_strategy in H.
+    assert (B0 : Bk (seq 0 (length eff)) st0).
+    { subst st0. constructor; [apply seq_NoDup|constructor|intros i _ []]. }
+    assert (C0 : Cover eff (seq 0 (length eff)) st0) by (intros i Hi; left; apply in_seq; lia).
+    assert (Fin : forall sel st, Inv ffi eff (imap_of_list (sc_pre sc)) it0 ot0 st -> NoDup (st_trace st) ->
+                  (forall i, (i < length eff)%nat -> has_key sel eff i = true -> In i (st_trace st)) ->
+                  Q sel (st_in st) < Q sel (st_out st) ->
+                  exists fee, required_fee min_fee ffi (imap_of_list (sc_pre sc)) (added_utxos eff (st_trace st)) = Ok fee /\
+                              supply sel sc (imap_of_list (sc_pre sc) ++ eff) < demand sel sc fee).
+    { intros sel st [Iin [fees [Ifee Iout]] Iq _ _ Iidx] Hn Hall Hq.
+      exists (f0 + fees). split; [unfold required_fee; rewrite Hf; cbn [bind]; rewrite Ifee; reflexivity|].
+      unfold supply. rewrite map_app, sumQ_app.
+      rewrite <- (sumQ_all_selected sel eff (st_trace st) Hn); auto.
+      - rewrite Iq, Iout, Qi0, Qo0 in Hq.
+        replace (demand sel sc (f0 + fees)) with (demand sel sc f0 + coin_only sel fees) by (unfold demand; destruct sel; cbn [coin_only]; lia).
+        lia.
+      - intros i Hi. rewrite Forall_forall in Iidx. apply nth_error_Some. apply Iidx. exact Hi. }
+    destruct (lf_multi ffi (asset_selectors (st_out st0)) eff (seq 0 (length eff)) st0) as [st2 x2] eqn:X2.
+    destruct x2 as [aidx| | | |]; cbn [obind] in H; try discriminate H.
+    - unfold drop_locals in H.
+      destruct (lf_by ffi ByCoin eff aidx st2) as [st3 r3] eqn:X3.
+      destruct (lf_multi_ok _ _ Woff _ _ _ _ (fun _ _ E => E) _ _ _ _ _ I0 B0 X2) as [I2 [B2 [_ [_ [Ho2 Hc2]]]]].
+      assert (C2 : Cover eff aidx st2).
+      { clear H X3. revert X2. generalize (asset_selectors (st_out st0)) as sels. intros sels.
+        revert I0 B0 C0. generalize (seq 0 (length eff)) as a0. generalize st0 as s0. clear Hst0 E0 Hlt.
+        induction sels as [|s sels IH]; intros s0 a0 Ia Ba Ca X; cbn [lf_multi] in X.
+        - inversion X; subst. exact Ca.
+        - destruct (lf_by ffi s eff a0 s0) as [s1 r1] eqn:E1. ob X.
+          destruct (lf_by_ok _ _ Woff _ _ _ _ (fun _ _ E => E) _ _ _ _ _ Ia Ba E1) as [I1 [B1 _]].
+          pose proof (lf_by_cover _ _ Woff _ _ _ _ (fun _ _ E => E) _ _ _ _ _ Ia Ca E1) as C1.
+          apply (IH _ _ I1 B1 C1 X). }
+      destruct r3 as [aidx3| | | |]; cbn [ob obind] in H; try discriminate H.
+      + (* both passes succeeded: the guard cannot fire *)
+        exfalso. cbn [v_asset_guard current andb] in H.
+        destruct (lf_by_ok _ _ Woff _ _ _ _ (fun _ _ E => E) _ _ _ _ _ I2 B2 X3) as [I3 [_ [_ [Hm3 [Ho3 _]]]]].
+        assert (G : asset_guard st3 = true).
+        { apply asset_guard_complete; [apply I3|]. intros p n.
+          destruct (N.eq_dec (Q (ByAsset p n) (st_out st3)) 0) as [Ez|Enz]; [rewrite Ez; lia|].
+          rewrite Ho3, Ho2 in Enz. cbn [Q] in Enz. apply selectors_complete in Enz.
+          specialize (Hc2 p n Enz). specialize (Hm3 (ByAsset p n)). rewrite Ho3. lia. }
+        rewrite G in H. cbn [negb] in H. discriminate H.
+      + inversion H; subst st3; clear H.
+        destruct (lf_by_insufficient _ _ Woff _ _ _ _ (fun _ _ E => E) _ _ _ _ I2 B2 C2 X3) as [I' [Hn' [Hall Hq]]].
+        exists ByCoin. apply (Fin ByCoin st' I' Hn' Hall Hq).
+    - inversion H; subst st2; clear H.
+      destruct (lf_multi_insufficient _ _ Woff _ _ _ _ (fun _ _ E => E) _ _ _ _ I0 B0 C0 X2) as [sel [_ [I' [Hn' [Hall Hq]]]]].
+      exists sel. apply (Fin sel st' I' Hn' Hall Hq).
+  Qed.
 End Sound.
 
 (* ------------------------------------------------------------------------------------------- *)
